@@ -1,75 +1,70 @@
 #!/usr/bin/env python3
-"""Regenerates /verif/MANIFEST.json from the table below (kept valid at all times)."""
-import json, os, subprocess
+"""Regenerates /verif/MANIFEST.json from scripts/checks_meta.json (kept valid at all times).
+
+checks_meta.json: { "<id>": {"level": ..., "engine": ..., "technique": ..., "text": ..., "note": ...}, ... }
+Properties without an entry are listed under not_applicable with the reason in NOT_YET / "na" entries.
+"""
+import json, os
 
 ROOT = os.path.dirname(os.path.dirname(os.path.abspath(__file__)))
 TRUST = ("Trusted base: IAVL, tm-db MemDB, the Go runtime and compiler; the node runs on harness-owned in-memory databases "
          "through the production constructor path; os.Exit in coreV2/minter is replaced by a panic sentinel via build overlay. ")
+NOT_YET = "check not built yet in this session (see DESIGN.md §6 for the plan)"
 
-X = "explicit-state BFS over histories executed on the real node (harness-written explorer)"
-
-# id -> (level, technique, text, note)
-CHECKS = {
- "C01": ("model_checking", X + "; ledger recomputed from exports vs emission counter",
-         "Every history of the worlds within the bound is executed on a real node; after each Commit the ledger is recomputed from holdings in the export and compared with coin volumes and the emission counter.",
-         "Bound: see evidence (T transactions, K per block, B blocks per world). Histories longer than the bound and amounts outside the menus are not covered."),
- "C02": ("model_checking", X + "; sign/max-supply/reserve invariant on every committed state",
-         "State invariant evaluated on the export of every state reached within the bound.",
-         "Same bounds as C01."),
- "C03": ("model_checking", X + "; differential twin (block with vs without the last transaction)",
-         "For every state within the bound and every menu transaction: the block [..t] is compared with its twin [..]; a rejected t may differ only in failure-fee effects.",
-         "Twin comparison at block level off payout boundaries; menus fix the inputs."),
- "C04": ("model_checking", X + "; nonce reference model incl. replays and stale/gap nonces",
-         "Every accepted delivery is compared with a nonce map; replays of accepted bytes, nonce-1/+1 and foreign-chain variants are menu items.",
-         "Menu-bounded."),
- "C07": ("model_checking", X + "; recover() around every ABCI call",
-         "Every ABCI call of every explored history is guarded; a panic or exit is a violation.",
-         "Go runtime fatal errors kill the worker and are reported as harness errors."),
- "C26": ("model_checking", X + "; differential twin for re-delivered bytes",
-         "Every delivered byte string is delivered again (same block, later block); the payer's balances must not drop.",
-         "Known finding recorded for first-delivery-failed-in-Run."),
+ENGINES = {
+    "explorer": ("/verif/explore", "explicit-state breadth-first search over block histories executed on real minter.Blockchain instances, with differential twins (parent/empty block, restart, import) and reference-model monitors"),
+    "crash": ("/verif/explore/crash.go", "crash enumerator: every prefix of the database writes of a Commit, process death injected by the storage layer, Tendermint handshake model, comparison with the uncrashed run"),
+    "lattice": ("/verif/lattice", "exhaustive enumeration of finite input lattices of pure functions against exact reference arithmetic"),
+    "sched": ("/verif/sched", "cooperative scheduler over hooked sync primitives with bounded preemptions plus a free-running -race pass"),
+    "seeds": ("/verif/seeds", "same histories executed in separate processes under enumerated map-iteration seeds / GOMAXPROCS / GOGC"),
 }
 
-NOT_YET = "check not built yet in this session (see DESIGN.md §6 for the plan)"
 
 def main():
     props = [json.loads(l) for l in open(os.path.join(ROOT, "properties.jsonl"))]
-    checks, na = [], []
+    meta = json.load(open(os.path.join(ROOT, "scripts", "checks_meta.json")))
+    checks, na, served = [], [], {}
     for p in props:
         pid = p["id"]
-        if pid in CHECKS:
-            level, tech, text, note = CHECKS[pid]
-            checks.append({
+        m = meta.get(pid)
+        if m and not m.get("na"):
+            eng = m.get("engine", "explorer")
+            served.setdefault(eng, []).append(pid)
+            c = {
                 "property_id": pid,
                 "quick_cmd": "scripts/check.sh %s quick" % pid,
                 "thorough_cmd": "scripts/check.sh %s thorough" % pid,
                 "evidence_file": "/verif/evidence/%s.json" % pid,
                 "replay_cmd_template": ".build/bin/verif replay {path}",
-                "engine": "explorer",
-                "level_claimed": {"category": level, "text": text, "design_ref": "DESIGN.md §6 " + pid},
-                "level_note": TRUST + note,
-                "technique": tech,
-            })
+                "engine": eng,
+                "level_claimed": {"category": m["level"], "text": m["text"], "design_ref": "DESIGN.md §6 " + pid},
+                "level_note": TRUST + m.get("note", ""),
+                "technique": m["technique"],
+            }
+            checks.append(c)
         else:
-            na.append({"property_id": pid, "reason": NOT_YET})
+            na.append({"property_id": pid, "reason": (m or {}).get("na", NOT_YET)})
+    engines = []
+    for name, pids in served.items():
+        path, kind = ENGINES.get(name, ("/verif", name))
+        engines.append({"name": name, "path": path, "serves_properties": sorted(pids), "kind_free_text": kind})
     m = {
         "version": 1,
         "setup_cmd": "scripts/setup.sh",
         "hooks": {
             "guard": "verif",
-            "enable": "go build -tags verif -overlay /verif/.build/overlay-base.json (overlay generated from the current /repo tree by scripts/overlaygen.py; no hook file is committed to /repo)",
+            "enable": "go build -tags verif -overlay /verif/.build/overlay-main-base.json (overlay generated from the current /repo tree by scripts/overlaygen.py; no hook file is committed to /repo: hooks/*.go.txt are added to repo packages and the os import of coreV2/minter is redirected at build time only)",
             "baseline_off_cmd": json.load(open("/root/.vp/BASELINE.json"))["cmd"],
             "source_commits": [],
             "add_only": True,
         },
-        "engines": [
-            {"name": "explorer", "path": "/verif/explore", "serves_properties": sorted(CHECKS), "kind_free_text": "explicit-state breadth-first search over block histories executed on real minter.Blockchain instances, with differential twins and reference-model monitors"},
-        ],
+        "engines": engines,
         "checks": checks,
         "not_applicable": na,
-        "notes": "All checks rebuild the harness against /repo's working tree (scripts/build.sh). Exit 2 = harness error, never a VIOLATION.",
+        "notes": "All checks rebuild the harness against /repo's working tree (scripts/build.sh). Exit 2 = harness error, never a VIOLATION. Genuine defects repaired in /repo are 'fix:' commits listed in known_findings.json (status fixed); unrepaired ones have status known.",
     }
     json.dump(m, open(os.path.join(ROOT, "MANIFEST.json"), "w"), indent=1)
     print("MANIFEST: %d checks, %d not_applicable" % (len(checks), len(na)))
+
 
 main()
